@@ -1,3 +1,4 @@
+import IpaVerif.Model.Circuits
 /-
 Differential-privacy noise and padding parameters (C12):
 `protocol/ipa_prf/oprf_padding/{insecure,distributions}.rs`, `protocol/dp/mod.rs`.
@@ -215,5 +216,21 @@ and puts the value in its right component, the other puts it in its left compone
 def passShares (modulus ovBits sample shift : Nat) (excluded h : Nat) : Nat × Nat :=
   if h % 3 == excluded % 3 then (0, 0)
   else sampleShares modulus ovBits sample shift (decide ((h + 2) % 3 = excluded % 3))
+
+/-! ### `dp_for_histogram`, DiscreteLaplace: one pass over the buckets -/
+
+/-- one `apply_laplace_noise_pass`: the generating pair draws `B` samples from its shared stream
+(`std::array::from_fn(|_i| sample_shares(rng, …))`), each placed as `(sample − n) mod 2^w`, and adds the noise
+vector to the histogram with `integer_add(noise, histogram)` (carry dropped). `none` = stream exhausted. -/
+def e2ePass (pInt shift w : Nat) (modulus : Nat) : List Nat → List Nat → Option (List Nat)
+  | [], _ => some []
+  | h :: hs, script =>
+    match truncatedSample pInt shift (script.length + 1) script with
+    | none => none
+    | some (sample, rest) =>
+      let noise := symmetricSample modulus w sample shift
+      let sum := Circuits.val (Circuits.integerAdd Circuits.plainAlg []
+        (Circuits.bitsOf w noise) (Circuits.bitsOf w h)).1
+      (e2ePass pInt shift w modulus hs rest).map (sum :: ·)
 
 end IpaVerif.Dp
